@@ -217,6 +217,15 @@ class ListRef:
             m, elt2, _ = p.ghost["L"][args[0].h.oid]
             p.ghost["L"][self.oid] = (n + m, lambda j, n=n, elt=elt, elt2=elt2: z3.If(j < n, elt(j), elt2(j - n)), stored)
             return [(p, NONE)]
+        if name == "extend" and len(args) == 1 and isinstance(args[0], Custom) and isinstance(args[0].h, RowRef):
+            r = args[0].h
+            rows = r._rows(p)
+            eng.oblige(p, f"assemble.extend_source_is_a_list[{p.ghost['phase']}]", "post", z3.Not(rows.none(r.idx)), node,
+                       "list.extend(assign[k]): the row must be a list (extending with None raises TypeError)")
+            p.pc.append(z3.Not(rows.none(r.idx)))
+            m, k = rows.ln(r.idx), r.idx
+            p.ghost["L"][self.oid] = (n + m, lambda j, n=n, elt=elt, rows=rows, k=k: z3.If(j < n, elt(j), rows.elt(k, j - n)), stored)
+            return [(p, NONE)]
         raise Unsupported("list." + name)
 
 
@@ -925,6 +934,9 @@ def path_facts(en, ds):
     for d in ds:
         f.append(z3.Implies(z3.And(0 <= d, d < PATH_LEN), z3.And(NODE_NCH(PN(d)) >= 1, z3.Implies(NODE_NCH(PN(d)) == 1, CHILD(PN(d), 0) == PN(d + 1)))))
         f.append(NODE_NCH(PN(d)) >= 0)
+    rts = sorted(_EN.get("FieldRepetitionType", {}).values()) or [0, 1, 2]
+    for n in [PN(d) for d in list(ds) + [PATH_LEN]] + [CHILDNAMED(PN(PATH_LEN - 1), 1), CHILDNAMED(PN(PATH_LEN - 1), 2)]:
+        f.append(z3.Or(*[NODE_RT(n) == v for v in rts]))          # repetition_type is a value of the enum
     return f
 
 
